@@ -169,7 +169,7 @@ def main(tier="quick", seed=0, procs=None, only=None):
     run.add_counts(configs=programs)
     run.extra["programs_executed"] = programs
     run.extra["failing_program_groups_before_shrinking"] = len(classes)
-    run.extra["clause_failures_downstream_of_a_broken_registry_invariant_(blamed_on_the_breaking_call,_not_reported_again)"] = dict(sorted(downstream.items()))
+    run.extra["downstream_clause_failures_not_reported_again"] = dict(sorted(downstream.items()))
     # ---- regroup by the triggering feature of the minimal program
     final = {}
     for obl, cnt, prog, small, hit, err in shrunk:
